@@ -26,7 +26,7 @@ LEVEL_NOTE = ("Trusted: vlib/model/busmodel.py for map()/advance; the wrapper ob
 DESIGN_REF = "DESIGN.md §3 C02"
 ASSUMPTIONS = ["labels under @= relocation, in macro bodies and in loops are covered by oracle (1) only"]
 
-PROFILE = progen.Profile(unsized_symbols=True, shadowing=True, param_named_consts=True, max_stmts=14, max_depth=4, edge_weight=0.5, call_weight=4, scope_weight=4, block_weight=4)
+PROFILE = progen.Profile(text=True, unsized_symbols=True, shadowing=True, param_named_consts=True, max_stmts=14, max_depth=4, edge_weight=0.5, call_weight=4, scope_weight=4, block_weight=4)
 
 # ---- run-time wrapping (from the harness side) --------------------------------------------------------------
 _REC = None
@@ -205,7 +205,7 @@ def run_case(case) -> Outcome:
     bus = busmodel.builtin(rom)
     src, inc, rnd = render.render(ir)
     out = Outcome(evals=1, labels=[f"rom:{rom}"])
-    first = next((st for st in ir if st["k"] not in ("const", "macro", "map")), None)
+    first = next((st for st in ir if st["k"] not in ("const", "macro", "map", "table")), None)
     if first is None or first["k"] != "org":
         return Outcome(skip="program does not start with *= (the default position is outside the mapped window)")
     _REC = []
